@@ -29,8 +29,8 @@ PROPERTY = "C20"
 LEVEL = "exploration"
 ops.AVOID_NODE_OUTPUTS_ON_GRAPH_INPUTS = True
 TIERS = {
-    "quick": {"wall": 40, "chunk": 40, "shrink_budget": 300, "shrink_wall": 60},
-    "thorough": {"wall": 600, "chunk": 100, "shrink_budget": 600, "shrink_wall": 240},
+    "quick": {"wall": 32, "optimize_wall": 8, "chunk": 40, "shrink_budget": 300, "shrink_wall": 60},
+    "thorough": {"wall": 600, "optimize_wall": 90, "chunk": 100, "shrink_budget": 600, "shrink_wall": 240},
 }
 RULE = (
     "each run = one seeded Engine A history (bootstrap + 15-50 ops of the C01 alphabet, ~30% rejected) executed three times: plain, inside "
